@@ -91,7 +91,8 @@ def status_line_ok(spec, line):
 def effective(r):
     """Recipe with the earlier steps of the filling-in history folded in.
 
-    r['pre'] = [['text'|'data'|'media', value-or-None] | ['render'], ...] runs before the final assignments.
+    r['pre'] = [['text'|'data'|'media', value-or-None] | ['render'] | ['media_mutate_reassign', new content], ...]
+    runs before the final assignments.
     Only the LAST assignment of each attribute counts; calling the public render_body() in between is an
     observation and changes nothing about what must be sent.
     """
@@ -102,6 +103,8 @@ def effective(r):
     for op in pre:
         if op[0] in last:
             last[op[0]] = op[1]
+        elif op[0] == 'media_mutate_reassign':
+            last['media'] = op[1]       # the same object, changed in place, assigned again: its new content counts
     e = dict(r)
     if r.get('text') is None:
         e['text'] = last['text']
@@ -119,6 +122,8 @@ def media_rendered_in_history(r):
         if op[0] == 'render':
             if cur['text'] is None and cur['data'] is None and cur['media'] is not None:
                 return True
+        elif op[0] == 'media_mutate_reassign':
+            cur['media'] = op[1]
         else:
             cur[op[0]] = op[1]
     return False
